@@ -12,6 +12,24 @@ NOTE_COMMON = ('Trusted base: CPython, Hypothesis 6.168 as case generator, the h
 
 # id -> (design section, technique, level text, level note)
 CLAIMS = {
+    'C12': ('3/C12', 'per-class value/lexeme generators over hazard alphabets + bounded-exhaustive enumeration (strings <= 3 over 12 symbols, date ranges, digit patterns); round-trip through from_value / parse_token and differential against a harness-side transcription of each terminal',
+            'Exploration: for every value-bearing token class, values, lexemes, near-lexeme candidates and assignment sequences are checked for value <-> raw text <-> lexer agreement; '
+            'small sub-domains are enumerated completely. Right level: the relation is per token and the failing regions (line/page separators, year < 1000, tiny decimals) are '
+            'character-class boundaries that an enumerated hazard alphabet reaches.',
+            NOTE_COMMON + ' Value domains are the images of the class parsers.'),
+    'C13': ('3/C13', 'random expression trees and operator chains; independent recursive-descent evaluator over the printed text as reference, metamorphic operand-preservation via snapshots',
+            'Exploration: parsed expressions and results of + - * / (plain, reflected, in-place) and unary operators over int / Decimal / free / attached operands are compared with an '
+            'independent evaluation of the printed text and with arithmetic on the operand values; operands and their documents are snapshotted around non-in-place calls. Right level: '
+            'precedence/parenthesisation mistakes depend only on operator pairs, all of which short random chains cover.',
+            NOTE_COMMON),
+    'C17': ('3/C17', 'generated ledgers; spacing read sweep against a store-list reference, neighbour-agreement metamorphic relation, and write programs with a character-range splice oracle',
+            'Exploration: spacing accessors of every model and token on both sides are compared with a reference computed from the token list; assignments must change exactly the old '
+            'run\'s character range and read back. Right level: a local relation on neighbouring tokens; zero-width neighbours and newline runs are generated densely.',
+            NOTE_COMMON),
+    'C18': ('3/C18', 'generated (parent kind, existing meta layout, indent_by, insertion route) combinations; documented-rule reference for the created indent and unchanged-existing-indent invariant',
+            'Exploration: every insertion route x parent kind x layout x indent_by string is sampled thousands of times against the documented rule. Right level: the rule is a small '
+            'decision table whose inputs are all generated.',
+            NOTE_COMMON + ' With disagreeing sibling indents any sibling\'s indent is accepted.'),
     'C03': ('3/C03', 'state-aware generation of slot operations + list-operation sweep; token-window oracle (identity/order/text of everything outside the affected child and its adjacent separators)',
             'Exploration: after every generated add/remove/replace of a child the tokens outside the owning model, every sibling and every surviving token are compared by '
             'identity, order and text; disappeared/appeared tokens must lie in the child or its adjacent separator run. Right level: separator/pivot errors are local and '
